@@ -19,6 +19,7 @@ import (
 type BGVSet struct {
 	P    h.BGVSpec `json:"params"`
 	Bpw2 int       `json:"bpw2,omitempty"`
+	Keys KeyLevels `json:"keys,omitempty"`
 }
 
 // tOrder returns the number of slots the plaintext modulus t supports in a ring of degree 2^logN: min(N, largest
@@ -197,7 +198,7 @@ func newBGVCtx(s BGVSet) (*bgvCtx, error) {
 func (c *bgvCtx) margin(level, terms, depth int) float64 {
 	s := c.set
 	be, sl1 := s.P.Xe.AbsBound(), h.SecretL1(s.P.Xs, s.P.N())
-	ks := ksNoiseLog2(s.P.N(), s.P.Q[:level+1], s.P.P, s.Bpw2, be, sl1)
+	ks := ksNoiseLog2(s.P.N(), s.P.Q[:level+1], s.Keys.usedP(s.P.P), s.Bpw2, be, sl1)
 	tot := totalNoiseLog2(terms, depth, ks, be) + math.Log2(float64(s.P.T))
 	return log2Prod(s.P.Q[:level+1]) - 1 - tot
 }
@@ -292,6 +293,7 @@ func genBGVRot(t *rapid.T) BGVRotCase {
 	c.Mode = bgvRotModes[rapid.IntRange(0, len(bgvRotModes)-1).Draw(t, "mode")]
 	c.Set = genBGVSet(t, modReq{needP: c.Mode == "lazy", terms: 1, depth: 4})
 	c.Level = rapid.IntRange(0, len(c.Set.P.Q)-1).Draw(t, "level")
+	c.Set.Keys = genSetKeys(t, &c.Set.P.RLWESpec, c.Level, false)
 	c.Seed = rapid.Uint64().Draw(t, "seed")
 	cols := tSlots(c.Set.P.T, c.Set.P.LogN) / 2
 	nk := rapid.IntRange(1, 3).Draw(t, "nk")
@@ -338,7 +340,7 @@ func runBGVRot(c BGVRotCase, rec *h.Rec) error {
 	if usesRows {
 		galEls = append(galEls, p.GaloisElementForRowRotation())
 	}
-	keys := keysFor(ctx.kgen, ctx.sk, galEls, c.Set.Bpw2)
+	keys := keysFor(ctx.kgen, ctx.sk, galEls, c.Set.Bpw2, c.Set.Keys)
 	eval := bgv.NewEvaluator(p, keys)
 
 	check := func(op string, got *rlwe.Ciphertext, want []uint64, detail string) error {
@@ -431,6 +433,9 @@ func runBGVRot(c BGVRotCase, rec *h.Rec) error {
 		}
 	case "lazy":
 		levelP := p.MaxLevelP()
+		if c.Set.Keys.Set {
+			levelP = c.Set.Keys.LP // the caller decomposes for the auxiliary modulus of the keys
+		}
 		eval.DecomposeNTT(c.Level, levelP, levelP+1, ct.Value[1], ct.IsNTT, eval.BuffDecompQP)
 		var res map[int]*rlwe.Element[ringqp.Poly]
 		res, err = eval.RotateHoistedLazyNew(c.Level, c.Ks, ct, eval.BuffDecompQP)
@@ -467,6 +472,7 @@ func runBGVRot(c BGVRotCase, rec *h.Rec) error {
 	rec.Classf("mode=%s", c.Mode)
 	rec.Classf("logN=%d", c.Set.P.LogN)
 	rec.Classf("nP=%d", len(c.Set.P.P))
+	rec.Class(c.Set.Keys.class(p.MaxLevelQ(), p.MaxLevelP()))
 	if ctx.slots < p.N() {
 		rec.Class("sparse-t")
 	}
@@ -620,6 +626,7 @@ func genBGVSum(t *rapid.T) BGVSumCase {
 	// every operation built on PartialTracesSum hoists and needs an auxiliary modulus; InnerFunction does not
 	c.Set = genBGVSet(t, modReq{needP: op != "InnerFunction", termsN: true})
 	c.Level = rapid.IntRange(0, len(c.Set.P.Q)-1).Draw(t, "level")
+	c.Set.Keys = genSetKeys(t, &c.Set.P.RLWESpec, c.Level, op != "InnerFunction")
 	c.Seed = rapid.Uint64().Draw(t, "seed")
 	total := tSlots(c.Set.P.T, c.Set.P.LogN)
 	c.Args = genSumArgs(t, op, total/2, total)
@@ -698,7 +705,7 @@ func runBGVSum(c BGVSumCase, rec *h.Rec) error {
 	case "PartialTracesSum", "InnerFunction":
 		galEls = rlwe.GaloisElementsForInnerSum(p, a.Batch, a.N)
 	}
-	keys := keysFor(ctx.kgen, ctx.sk, galEls, c.Set.Bpw2)
+	keys := keysFor(ctx.kgen, ctx.sk, galEls, c.Set.Bpw2, c.Set.Keys)
 	eval := bgv.NewEvaluator(p, keys)
 
 	out := ct
@@ -827,6 +834,7 @@ func runBGVSum(c BGVSumCase, rec *h.Rec) error {
 
 	rec.Classf("op=%s", a.Op)
 	rec.Classf("logN=%d", c.Set.P.LogN)
+	rec.Class(c.Set.Keys.class(p.MaxLevelQ(), p.MaxLevelP()))
 	rec.Classf("args=%s", a.class(cols, total))
 	if total < p.N() {
 		rec.Class("sparse-t")
